@@ -93,10 +93,20 @@ func injectFaults(fresh func() []*doc.Node, emit func(f fault)) {
 		}
 		// 2. same method on the same path / same URL path twice (top-level blocks), at the end and right after
 		if parent == nil && (kw == "URL" || isMethod(kw)) {
-			for _, pos := range []int{-1, 0} {
+			for _, pos := range []int{-1, 0, -2} { // -2: at the end, the second one bare (no children at all)
 				t := fresh()
 				orig, _ := idxOf(t, k)
 				cp := orig.Clone()
+				if pos == -2 {
+					if kw != "URL" || len(cp.Kids) == 0 {
+						continue // (a method without a response is a fault of its own)
+					}
+					cp.Kids, cp.Body, cp.Paren, cp.Ann = nil, "", false, ""
+					pos = -1
+					t2 := append(t, cp)
+					emit(fault{kind: "duplicate-bare-" + methodOrURL(kw), nodes: t2, culprits: []*doc.Node{orig, cp}, injected: cp})
+					continue
+				}
 				var t2 []*doc.Node
 				if pos == -1 {
 					t2 = append(t, cp)
@@ -427,6 +437,9 @@ func runFaultsMode(c *fw.Ctx, sigPrefix string, keep func(kind string) bool, cra
 							nodes = append(nodes, mac)
 							culprits = append(culprits, ps)
 						default: // own-file:k - the k-th top-level declaration alone in a small file
+							if !strings.HasPrefix(delivery, "own-file:") {
+								break // "direct": the document as it is
+							}
 							var k int
 							fmt.Sscanf(delivery, "own-file:%d", &k)
 							if k >= len(nodes) || nodes[k].Kw == "JSIGHT" {
